@@ -59,32 +59,101 @@ def lookup(ctx, P):
         ctx.violation(ob, "R12.router-lookup", "NetworkRouting.initialise", "zip(self.routers, transitive_nodes)", "router-node-pairing", "router i must be initialised with node i", loc(fn))
 
 
+def _router_paths(P, cname):
+    """paths of <cname>.next_node -> list of (facts, returned index text, its defining expression text, path state)"""
+    view = P.view(cname)
+    cls, fn = view.method("next_node")
+    w = Walker(P, view, keep=lambda e: e.kind in ("guard", "return", "call") or (e.kind == "assign" and e.d.get("local")), track=lambda t, f: True, inline=lambda ev: False)
+    out = []
+    for st in w.paths_of(cls, fn):
+        if st.status != "return":
+            out.append((None, None, None, st))
+            continue
+        ret = [e for e in st.events if e.kind == "return"][0]
+        vn = ret.d["value_node"]
+        idx = None
+        if isinstance(vn, ast.Subscript) and unparse(vn.value) == "self.simulation.nodes":
+            idx = vn.slice
+        defs = {}
+        for e in st.events:
+            if e.kind == "assign":
+                defs[unparse(e.d["target_node"])] = e.d["value"]
+        facts = rules.path_condition(st.events)
+        if idx is None:
+            out.append((facts, None, None, st))
+        else:
+            itxt = unparse(idx)
+            out.append((facts, itxt, defs.get(itxt, ret.d["value"][len("self.simulation.nodes["):-1] if isinstance(idx, ast.Name) else itxt), st))
+    return out, fn
+
+
 def routers(ctx, P):
     ob = ctx.ob("RET", "every in-repo next_node returns simulation.nodes[k] with k from the router's own table")
-    specs = {
-        "Probabilistic": lambda s: "node_index=ciw.random_choice(self.destinations,self.probs)" in s and "returnself.simulation.nodes[node_index]" in s,
-        "Direct": lambda s: "returnself.simulation.nodes[self.to]" in s,
-        "Leave": lambda s: "returnself.simulation.nodes[-1]" in s,
-        "Cycle": lambda s: "next_node_index=next(self.generator)" in s and "returnself.simulation.nodes[next_node_index]" in s,
-        "JoinShortestQueue": lambda s: s.count("returnself.simulation.nodes[next_node_index]") == 2 and "next_node_index=ciw.random_choice(shortest_queues)" in s and "next_node_index=shortest_queues[0]" in s,
-        "ProcessBased": lambda s: "iflen(ind.route)==0:node_index=-1else:node_index=ind.route.pop(0)returnself.simulation.nodes[node_index]" in s.replace("\n", ""),
-        "FlexibleProcessBased": lambda s: "iflen(ind.route)==0:node_index=-1else:node_index=self.find_next_node_from_subset(ind.route[0],ind)self.update_individual_route(ind,node_index)returnself.simulation.nodes[node_index]" in s.replace("\n", ""),
-    }
+
+    def single(cname, want):
+        paths, fn = _router_paths(P, cname)
+        ob.ok(cname, "%s.next_node: %s" % (cname, [p[2] for p in paths]))
+        if len(paths) != 1 or paths[0][2] is None or paths[0][2].replace(" ", "") != want:
+            ctx.violation(ob, "R12.router-return", "%s.next_node" % cname, str([p[2] for p in paths])[:150], "router-return",
+                          "%s.next_node must return simulation.nodes[%s]" % (cname, want), loc(fn))
     n = 0
-    for cname, okf in specs.items():
-        ci = P.classes.get(cname)
-        if ci is None or "next_node" not in ci.methods:
+    for cname, want in (("Probabilistic", "ciw.random_choice(self.destinations,self.probs)"), ("Direct", "self.to"), ("Leave", "-1"), ("Cycle", "next(self.generator)")):
+        if cname not in P.classes or "next_node" not in P.classes[cname].methods:
             ctx.unrecognised("RET: router %s.next_node not found" % cname)
             continue
-        fn = ci.methods["next_node"]
-        body = "\n".join(unparse(s) for s in fn.body if not (isinstance(s, ast.Expr) and isinstance(s.value, ast.Constant)))
-        s = re.sub(r"[ \t]+", "", body)
         n += 1
-        ob.ok(cname, body.replace("\n", "; ")[:120])
-        if not okf(s):
-            ctx.violation(ob, "R12.router-return", "%s.next_node" % cname, body.replace("\n", "; ")[:150], "router-return",
-                          "%s.next_node no longer has the recognised form 'pick k from the router's own table, return simulation.nodes[k]'" % cname, loc(fn))
+        single(cname, want)
+    # process-based: exit iff the route is empty, else the head of the route
+    for cname, head in (("ProcessBased", "ind.route.pop(0)"), ("FlexibleProcessBased", "self.find_next_node_from_subset(ind.route[0],ind)")):
+        if cname not in P.classes or "next_node" not in P.classes[cname].methods:
+            ctx.unrecognised("RET: router %s.next_node not found" % cname)
+            continue
+        n += 1
+        paths, fn = _router_paths(P, cname)
+        ind = fn.args.args[1].arg
+        head = head.replace("ind", ind)
+        empty_atom = ("eq", "0", "len(%s.route)" % ind)
+        okk = len(paths) == 2
+        for facts, itxt, d, st in paths:
+            if facts is None or d is None:
+                okk = False
+                continue
+            e = facts.get(empty_atom)
+            if e is True:
+                okk = okk and d.replace(" ", "") == "-1"
+            elif e is False:
+                okk = okk and d.replace(" ", "") == head
+                if cname == "FlexibleProcessBased":
+                    upd = [x for x in st.events if x.kind == "call" and x.d["meth"] == "update_individual_route"]
+                    okk = okk and len(upd) == 1 and upd[0].d["args"][0] == ind
+            else:
+                okk = False
+        ob.ok(cname, "%s.next_node: %s" % (cname, [(p[2]) for p in paths]))
+        if not okk:
+            ctx.violation(ob, "R12.router-return", "%s.next_node" % cname, str([p[2] for p in paths])[:150], "router-return",
+                          "%s.next_node must be: exit (-1) iff the route is empty, else %s; return simulation.nodes[that index]" % (cname, head), loc(fn))
+    # JSQ returns one of the minimisers collected by its scan
+    if "JoinShortestQueue" in P.classes:
+        n += 1
+        paths, fn = _router_paths(P, "JoinShortestQueue")
+        scs = scans.find_scans(fn)
+        lst = None
+        if len(scs) == 1:
+            var = unparse(scs[0].loop.target)
+            cand = [unparse(t) for x in scs[0].arm.body if isinstance(x, ast.Assign) and unparse(x.value) == "[%s]" % var for t in x.targets]
+            lst = cand[0] if cand else None
+        rets = sorted(set(p[2].replace(" ", "") for p in paths if p[2]))
+        ob.ok("JoinShortestQueue", "JoinShortestQueue.next_node returns %s" % rets)
+        if lst is None or rets != sorted(["ciw.random_choice(%s)" % lst, "%s[0]" % lst]):
+            ctx.violation(ob, "R12.router-return", "JoinShortestQueue.next_node", str(rets), "router-return",
+                          "JoinShortestQueue must return simulation.nodes[k] with k one of the minimal destinations (random or first)", loc(fn))
+        for facts, itxt, d, st in paths:
+            if d and facts is not None:
+                tb = [(a, v) for a, v in facts.items() if a[0] == "eq" and "self.tie_break" in a[1:]]
+                if d.replace(" ", "").startswith("ciw.random_choice") and (("eq", "'random'", "self.tie_break"), True) not in tb:
+                    ctx.violation(ob, "R12.router-return", "JoinShortestQueue.next_node", d, "tie-break", "a random tie-break must only be used under tie_break == 'random'", loc(fn))
     ctx.floor("router next_node implementations", n, 7)
+    specs = ("Probabilistic", "Direct", "Leave", "Cycle", "JoinShortestQueue", "ProcessBased", "FlexibleProcessBased")
     # any other class defining next_node(ind) must be in the table
     for ci in P.classes_defining("next_node"):
         if ci.name not in specs and ci.name not in P.subclasses("Node") and ci.name not in ("NetworkRouting", "ArrivalNode"):
@@ -141,11 +210,12 @@ def jsq(ctx, P):
     if scans._subst(sc.key, sc.defs) != "self.get_queue_size(%s)" % var:
         ctx.violation(ob, "R6.argmin", "JoinShortestQueue.next_node", sc.key, "scan-key", "the key must be get_queue_size of the destination being scanned", loc(sc.arm))
     arm_assigned = {unparse(t): unparse(s.value) for s in sc.arm.body if isinstance(s, ast.Assign) for t in s.targets}
-    if arm_assigned.get("shortest_queues") != "[%s]" % var:
+    lists = [k for k, v in arm_assigned.items() if v == "[%s]" % var]
+    if len(lists) != 1:
         ctx.violation(ob, "R6.argmin", "JoinShortestQueue.next_node", str(arm_assigned), "selection-not-from-iteration", "a new minimum must reset the candidate list to that destination", loc(sc.arm))
     for t in sc.ties:
         app = [x for x in ast.walk(t) if isinstance(x, ast.Call) and call_name(x) == "append"]
-        if len(app) != 1 or unparse(app[0].args[0]) != var or unparse(app[0].func.value) != "shortest_queues":
+        if len(app) != 1 or unparse(app[0].args[0]) != var or not lists or unparse(app[0].func.value) != lists[0]:
             ctx.violation(ob, "R6.argmin", "JoinShortestQueue.next_node", "tie arm", "selection-not-from-iteration", "a tie must append that destination", loc(t))
     # FlexibleProcessBased builds its temporary routers over the given subset
     fp = P.classes["FlexibleProcessBased"].methods["find_next_node_from_subset"]
@@ -284,10 +354,11 @@ def class_change(ctx, P, iters):
                           "the new class must be drawn from the class names with the probabilities of the current class's row, in the same order", loc(fn))
     for view in family_views(P, "ArrivalNode"):
         cls, fn = view.method("have_event")
-        s = unparse(fn).replace(" ", "")
         n += 1
         ob.ok("%s.have_event:priority" % view.name)
-        if "priority_class=self.simulation.network.priority_class_mapping[self.next_class]" not in s or "self.simulation.IndividualType(self.number_of_individuals,self.next_class,priority_class," not in s:
+        w = Walker(P, view, keep=lambda e: e.kind == "call" and e.d["meth"] == "IndividualType", inline=lambda ev: False)
+        ctor = [e for st in w.paths_of(cls, fn) for e in st.events]
+        if not ctor or any(e.d["args"][1:3] != ["self.next_class", "self.simulation.network.priority_class_mapping[self.next_class]"] for e in ctor):
             ctx.violation(ob, "R2.priority-remap", "%s.have_event" % cls.name, "IndividualType(id, next_class, priority_class_mapping[next_class])", "priority-not-remapped",
                           "a new customer's priority must be the mapping of its class", loc(fn))
     ctx.floor("class writes", n, 3)
